@@ -263,7 +263,7 @@ var argVariants = []string{"plain", "zero-empty", "negative", "whole-or-same"}
 
 func invoke(f *ociregistry.Funcs, m int, ctx context.Context, salt, variant int) result {
 	repo := fmt.Sprintf("repo/%d/%d", m, salt)
-	if variant != 0 && salt%3 == 0 {
+	if mix := uint32(salt)*2246822519 + uint32(m)*3266489917; variant != 0 && (mix>>11)%3 == 0 {
 		// names are opaque to the table: nothing in them may be interpreted (format verbs, separators,
 		// the catalog pseudo-name, bytes that are not UTF-8, no name at all)
 		repo = []string{"100%", "x%v/y%d", "%s", "a%!b(MISSING)", "*", "r\xffepo", "", "a: b: c", "%w"}[(salt/3)%9]
@@ -448,7 +448,7 @@ func main() {
 		rec.calls, rec.newErr = rec.calls[:0], rec.newErr[:0]
 		ctxVal := salt
 		ctx := context.WithValue(context.Background(), ctxKey{}, ctxVal)
-		switch (salt / 5) % 4 {
+		switch ((uint32(salt)*2654435761 + uint32(m)*97) >> 13) % 4 {
 		case 1:
 			// the caller has already given up: the table neither looks at nor reports that
 			c2, cancel := context.WithCancel(ctx)
@@ -462,6 +462,19 @@ func main() {
 			run.Count("calls_with_expired_context", 1)
 		}
 		set := mask&(1<<m) != 0
+		// what the stub of this method answers with, besides its value: the table relays it whatever it is
+		switch ek := int((mask*40503+uint32(m)*2654435761+uint32(salt)*131)>>7) % 6; ek {
+		case 1:
+			stubErrs[m] = fmt.Errorf("stub of %s: backend cannot do this: %w", methodNames[m], ociregistry.ErrUnsupported)
+		case 2:
+			stubErrs[m] = ociregistry.ErrUnsupported
+		case 3:
+			stubErrs[m] = fmt.Errorf("stub of %s: %w", methodNames[m], context.Canceled)
+		case 4:
+			stubErrs[m] = ociregistry.ErrBlobUnknown
+		default:
+			stubErrs[m] = fmt.Errorf("stub error of %s", methodNames[m])
+		}
 		variant := int((mask*2654435761+uint32(m)*40503+uint32(salt)*97)>>9) % len(argVariants)
 		run.Count("args:"+argVariants[variant], 1)
 		desc := map[string]any{"method": methodNames[m], "mask": fmt.Sprintf("%018b", mask), "own_set": set, "custom_newerror": custom, "nil_table": nilTable, "argument_variant": argVariants[variant]}
